@@ -70,6 +70,36 @@ def warm():
 
 
 # --------------------------------------------------------------------------
+def reference_cut(model, k):
+    """The normalised cut of the clustering the model currently holds, from its definition: every
+    sample contributes the arcs of its adjacency list (k nearest neighbours plus plateau arcs) with
+    weight 1/d (arcs of length 0 carry no weight) to the internal or external weight of its own
+    cluster; the cut is the sum over clusters of external / (internal + external).  Read-only."""
+    sg = model.subgraph
+    nodes = sg.nodes
+    internal, external = {}, {}
+    for i in range(sg.n_nodes):
+        ci = int(nodes[i].cluster_label)
+        internal.setdefault(ci, 0.0)
+        external.setdefault(ci, 0.0)
+        for t in range(int(nodes[i].n_plateaus) + int(k)):
+            j = int(nodes[i].adjacency[t])
+            if model.pre_computed_distance:
+                d = float(model.pre_distances[nodes[i].idx][nodes[j].idx])
+            else:
+                d = float(model.distance_fn(nodes[i].features.copy(), nodes[j].features.copy()))
+            if d > 0.0:
+                if ci == int(nodes[j].cluster_label):
+                    internal[ci] += 1.0 / d
+                else:
+                    external[ci] += 1.0 / d
+    cut = 0.0
+    for c in sorted(internal):
+        if internal[c] + external[c] > 0.0:
+            cut += external[c] / (internal[c] + external[c])
+    return cut
+
+
 def execute(prog, model=None):
     """Runs fit with the criterion scripted (prog['script'] not None) or
     recorded.  Returns dict(values, evaluated, best_k, calls).  With model=<object>
@@ -81,6 +111,7 @@ def execute(prog, model=None):
     values = []
     evaluated = []
     calls = []
+    cut_refs = []
     unsup = prog["model"] == "UnsupervisedOPF"
 
     if unsup:
@@ -94,6 +125,12 @@ def execute(prog, model=None):
                 v = float(script[len(values)])
             else:
                 v = float(orig_cut(self, n_neighbours))
+                try:
+                    cut_refs.append(reference_cut(self, n_neighbours))
+                except Horizon:
+                    raise
+                except Exception:
+                    cut_refs.append(None)
             values.append(v)
             return v
 
@@ -132,7 +169,7 @@ def execute(prog, model=None):
         ks = [c[1] for c in calls if c[0] == "create_arcs"]
         evaluated = ks[:len(values)]
     return {"values": values, "evaluated": evaluated, "best_k": int(m.subgraph.best_k),
-            "calls": calls, "model": m}
+            "calls": calls, "model": m, "cut_refs": cut_refs}
 
 
 def independent_accuracies(prog):
@@ -183,6 +220,13 @@ def judge(prog, ex):
             if bk != want:
                 return ("validation accuracies %s: best_k = %d but the smallest k with the highest accuracy is %d"
                         % (true, bk, want)), "best_k is not the best candidate"
+    if unsup and prog.get("script") is None:
+        # natural criterion: the value the training loop used must be the normalised cut of the
+        # clustering it had just built
+        for kk, v, r in zip(ev, vals, ex.get("cut_refs") or []):
+            if r is not None and abs(r - v) > 1e-9 * max(1.0, abs(r)):
+                return ("candidate k=%d was scored %r by the training loop, but the normalised cut of the "
+                        "clustering built with k=%d is %r" % (kk, v, kk, r)), "criterion is not the normalised cut"
     lo = prog["min_k"] if unsup else 1
     hi = prog["max_k"]
     cand = list(range(lo, hi + 1))
